@@ -35,6 +35,11 @@ def run(tier):
     rows = read_ndjson(outp)
     if len(rows) < len(cases):
         raise ToolError("harness produced too few records")
+    # a frame whose body could not be decompressed by the reference decoders: data for the judge (undec), not a TLC error
+    for x in rows:
+        x["undec"] = 1 if (x.get("ok") == 1 and x.get("body") is None) else 0
+        if x.get("body") is None:
+            x["body"] = []
     # big frames are expensive for TLC: in the quick tier judge them uncompressed only
     big = [x for x in rows if len(x["frame"]) > 20000 or len(json.dumps(x["d"])) > 200000]
     small = [x for x in rows if x not in big] if len(big) < 200 else rows
